@@ -574,6 +574,10 @@ def gen_cat(tier):
                     continue
                 for b in B:
                     yield dict(case, blanks=b)
+                    # the same broken workbook through the spreadsheet readers (blank rows are real empty rows there)
+                    if n <= 2 and b <= 1:
+                        for fmt in ("xlsx", "xls"):
+                            yield dict(case, blanks=b, fmt=fmt)
     for hm in HEADER_MUTS:
         for forest in forests_upto(2, 3):
             if hm.startswith("dup-") or hm == "alias-clash":
@@ -613,7 +617,11 @@ def judge(out, exp, tag):
 
 def check_cat(case):
     wb, exp = build_cat(case)
-    out = run_convert(wb)
+    if case.get("fmt"):
+        src, kw = render.render(wb, case["fmt"])
+        out = run_convert(src, **kw)
+    else:
+        out = run_convert(wb)
     tag = case["mut"]
     viol, nt = judge(out, exp, tag)
     return {"outcome": f"cat-{out.kind}", "nt": nt, "viol": viol, "tr": len(wb["survey"]),
